@@ -173,7 +173,7 @@ func NewMachine(ld *Loaded, cfg JobConfig, solverKind string) (*Machine, error) 
 	var sv *Portfolio
 	var err error
 	if solverKind == "" || solverKind == "portfolio" || solverKind == "z3-new" {
-		sv, err = NewPortfolio(ctx, []string{"z3-new", "cvc5-int", "cvc5"}, []int{1500, 20000, 20000})
+		sv, err = NewPortfolio(ctx, []string{"z3-new", "cvc5-int", "z3-new", "cvc5-int", "cvc5"}, []int{1000, 1500, 20000, 20000, 20000})
 	} else {
 		sv, err = NewPortfolio(ctx, []string{solverKind}, []int{20000})
 	}
